@@ -107,7 +107,8 @@ impl Prop for Unrelated {
         cfg.max_mods = 5;
         cfg.max_items = 3 + t.below(10);
         let (p1, _, _) = gen_prog(t, cfg);
-        let obs = t.below(p1.mods.len() as u64) as usize;
+        let with_uses: Vec<usize> = (0..p1.mods.len()).filter(|i| !p1.mods[*i].uses.is_empty()).collect();
+        let obs = if !with_uses.is_empty() && t.chance(3, 4) { with_uses[t.below(with_uses.len() as u64) as usize] } else { t.below(p1.mods.len() as u64) as usize };
         let cl = closure(&p1, obs);
         let used = names_used_by(&p1, &cl);
         let used_vec: Vec<String> = used.iter().cloned().collect();
